@@ -11,7 +11,7 @@ pub fn plan() -> Plan {
         meta: Meta {
             property: "C15",
             level: "exploration",
-            rule: "model differential after EVERY step: records_count, records_count_detailed (counts per blob in order, ids of closed blobs), records_count_in_active_blob, blobs_count, next_blob_id, corrupted_blobs_count against the model (records physically appended per blob incl. markers, blobs that exist); disk_used against the directory listing: exact equality at quiescent points (right after free_excess_resources + worker barrier when the active blob has no index file), otherwise bounded by [sum of blob files, sum of blob+index files]. Histories: puts/deletes (incl. deletes into closed blobs), manual close/restore/create, background variants, force updates, dumps, restarts with index removal, plus quarantine scenarios (a blob cut inside a record header with its index removed => quarantined, or with ignore_corrupted left in place: not counted, id still taken, bytes not 'used'; cut exactly at a record boundary => regenerated shorter; counters re-checked after two restarts; see observed.quarantine_scenarios_*). A quarter of the random histories rotate automatically (record limit 1-4 or size limit 100-900 bytes with a 0 ms rotation debounce; every rotation the worker performs is mirrored into the model, a rotation below the limit is a mismatch); one in eight starts with 9-14 small blobs (two-digit blob ids, several filter levels); one in twelve starts with a fat blob of 70-140 records (multi-leaf on-disk index). Non-trivial = history with >=1 lifecycle operation that ran >=3 steps.",
+            rule: "model differential after EVERY step: records_count, records_count_detailed (counts per blob in order, ids of closed blobs), records_count_in_active_blob, blobs_count, next_blob_id, corrupted_blobs_count against the model (records physically appended per blob incl. markers, blobs that exist); disk_used against the directory listing: exact equality at quiescent points (right after free_excess_resources + worker barrier when the active blob has no index file), otherwise bounded by [sum of blob files, sum of blob+index files]. Histories: puts/deletes (incl. deletes into closed blobs), manual close/restore/create, background variants, force updates, dumps, restarts with index removal, plus quarantine scenarios (a blob cut inside a record header with its index removed => quarantined, or with ignore_corrupted left in place: not counted, id still taken, bytes not 'used'; cut exactly at a record boundary => regenerated shorter; counters re-checked after two restarts; plus the 'everything quarantined' scenario: the only blob is quarantined by a lazy start, the next start finds no blob file but a non-empty corrupted/ directory, one record is written, third start; see observed.quarantine_scenarios_*). A quarter of the random histories rotate automatically (record limit 1-4 or size limit 100-900 bytes with a 0 ms rotation debounce; every rotation the worker performs is mirrored into the model, a rotation below the limit is a mismatch); one in eight starts with 9-14 small blobs (two-digit blob ids, several filter levels); one in twelve starts with a fat blob of 70-140 records (multi-leaf on-disk index). Non-trivial = history with >=1 lifecycle operation that ran >=3 steps.",
             assumptions: vec!["verdict holds for the executions produced by this seed only"],
         },
         shards: 16,
@@ -119,6 +119,68 @@ async fn quarantine_scenario(d: &mut crate::drive::Driver<8>, ops: &[crate::ops:
     Ok(kind)
 }
 
+/// Everything quarantined: the only blob of a directory is cut inside a record header (index removed), the
+/// storage is started lazily (the blob is quarantined, no active blob is created), closed, and started again on a
+/// directory that now has no blob file but a non-empty corrupted/ directory; then one record is written and the
+/// storage restarted once more. The counters must follow at every stage.
+async fn all_quarantined_scenario(dir: &std::path::Path, cfg: &crate::drive::Cfg, rng: &mut crate::rng::Rng) -> Result<(), (String, String)> {
+    use bytes::Bytes;
+    use pearl::{ArrayKey, BlobRecordTimestamp, Storage};
+    let open = |lazy: bool| {
+        let b = crate::drive::builder_for(cfg, dir);
+        async move {
+            let mut s: Storage<ArrayKey<8>> = b.build().map_err(|e| ("all-quarantined/build".to_string(), format!("{:#}", e)))?;
+            let r = if lazy { s.init_lazy().await } else { s.init().await };
+            r.map_err(|e| ("all-quarantined/init-failed".to_string(), format!("init(lazy={}) failed: {:#}", lazy, e)))?;
+            Ok::<_, (String, String)>(s)
+        }
+    };
+    let s = open(false).await?;
+    let n = rng.range(2, 9);
+    for i in 0..n {
+        let key = ArrayKey::<8>::from(crate::drive::key_bytes(cfg.key_salt, i as u16, 8));
+        s.write(&key, Bytes::from(crate::drive::value_bytes(0x1000 + i, 20)), BlobRecordTimestamp::new(i)).await.map_err(|e| ("all-quarantined/write".to_string(), format!("{:#}", e)))?;
+    }
+    s.close().await.map_err(|e| ("all-quarantined/close".to_string(), format!("{:#}", e)))?;
+    let path = dir.join("t.0.blob");
+    let bytes = std::fs::read(&path).unwrap_or_default();
+    let bp = crate::parse::parse_blob(&bytes);
+    let r = match bp.records.last() {
+        Some(r) => r,
+        None => return Ok(()),
+    };
+    let cut = r.pos + 1 + rng.below(r.header_len - 1);
+    std::fs::write(&path, &bytes[..cut as usize]).unwrap();
+    let _ = std::fs::remove_file(path.with_extension("index"));
+    macro_rules! expect {
+        ($s:expr, $stage:expr, $corr:expr, $blobs:expr, $recs:expr, $next_min:expr) => {{
+            let got = ($s.corrupted_blobs_count(), $s.blobs_count().await, $s.records_count().await, $s.next_blob_id());
+            if got.0 != $corr || got.1 != $blobs || got.2 != $recs || got.3 < $next_min {
+                return Err((format!("all-quarantined/{}", $stage), format!("{}: (corrupted_blobs_count, blobs_count, records_count, next_blob_id) = {:?}, expected ({}, {}, {}, >= {})", $stage, got, $corr, $blobs, $recs, $next_min)));
+            }
+        }};
+    }
+    let s = open(true).await?;
+    expect!(s, "after-lazy-init", 1, 0, 0, 1);
+    s.close().await.map_err(|e| ("all-quarantined/close".to_string(), format!("{:#}", e)))?;
+    let lazy2 = rng.chance(1, 2);
+    let s = open(lazy2).await?;
+    // a directory without blob files is initialised like a new one: a fresh active blob (eager or lazy alike)
+    expect!(s, "after-restart-without-blob-files", 1, 1, 0, 2);
+    let key = ArrayKey::<8>::from(crate::drive::key_bytes(cfg.key_salt, 99, 8));
+    s.write(&key, Bytes::from(crate::drive::value_bytes(0x2000, 20)), BlobRecordTimestamp::new(1)).await.map_err(|e| ("all-quarantined/write-after".to_string(), format!("{:#}", e)))?;
+    expect!(s, "after-first-write", 1, 1, 1, 2);
+    let new_ids = crate::drive::dir_ids(dir);
+    if new_ids.contains(&0) {
+        return Err(("all-quarantined/id-reused".into(), format!("a new blob got id 0 although t.0.blob sits in corrupted/: {:?}", new_ids)));
+    }
+    s.close().await.map_err(|e| ("all-quarantined/close".to_string(), format!("{:#}", e)))?;
+    let s = open(false).await?;
+    expect!(s, "after-third-restart", 1, 1, 1, 2);
+    s.close().await.map_err(|e| ("all-quarantined/close".to_string(), format!("{:#}", e)))?;
+    Ok(())
+}
+
 pub fn shard(ctx: &Ctx) -> Shard {
     use crate::runner::{block_on_catch, new_dir, rm_dir};
     let mut sub = ctx.clone();
@@ -128,10 +190,30 @@ pub fn shard(ctx: &Ctx) -> Shard {
     // quarantine scenarios in the remaining fifth of the budget
     let mut rng = crate::rng::Rng::new(crate::rng::mix(ctx.shard_seed(), 0xC15));
     let p = Profile::c15();
+    let mut qn = 0u64;
     while ctx.time_left() {
         let mut cfg = super::common::random_cfg(&mut rng, p.n_keys, p.n_meta, Some(true));
         cfg.keylen = 8;
         cfg.validate_data = rng.chance(1, 2);
+        qn += 1;
+        if qn % 5 == 0 {
+            let dir = new_dir("c15a-");
+            let seed = rng.next();
+            let mut crng = crate::rng::Rng::new(seed);
+            let r = block_on_catch(cfg.mt, all_quarantined_scenario(&dir, &cfg, &mut crng));
+            rm_dir(&dir);
+            sh.evaluations += 1;
+            let replay = serde_json::json!({"check": "c15-all-quarantined", "cfg": cfg.to_json(), "seed": seed});
+            match r {
+                Ok(Ok(())) => {
+                    sh.add("quarantine_scenarios_everything_quarantined", 1);
+                    sh.nontrivial.insert(seed);
+                }
+                Ok(Err((sig, d))) => sh.violation(&ctx.known, "C15", ctx.seed, &format!("C15/{}", sig), &d, replay),
+                Err(p) => sh.violation(&ctx.known, "C15", ctx.seed, "C15/all-quarantined/panic", &p, replay),
+            }
+            continue;
+        }
         cfg.ignore_corrupted = rng.chance(1, 3);
         let mut p2 = p.clone();
         p2.w_restart = 0;
